@@ -1043,6 +1043,34 @@ pub fn response_cookie(bytes: &[u8]) -> Option<Vec<u8>> {
     Some(v)
 }
 
+/// The request a service kind of Server.tla (`Script`) stands for: most
+/// kinds are ordinary queries (`default_edns`); some say what the request
+/// looks like -- no OPT record (so that whatever the service attached is
+/// stripped again and nothing is appended afterwards), or a COOKIE option
+/// with a hostile server cookie.
+pub fn request_for(svc: &str, id: u16, qlen: usize, default_edns: Option<u16>, ip: IpAddr) -> Vec<u8> {
+    let ck = match svc {
+        "strip" | "strip2" | "fill" | "fill64" => return mk_query(id, qlen, None, false),
+        // 2^31 + 7200 s ahead of the clock: numerically later, "expired" in
+        // serial-number arithmetic
+        "ckfar" => json!({"form": "std", "hash": "ok", "d": [32768, 7200]}),
+        // two hours old
+        "ckexp" => json!({"form": "std", "hash": "ok", "d": [65535, 58336]}),
+        // 12 octets: more than a client cookie, less than the shortest pair
+        "cklen" => json!({"form": "len", "n": 12}),
+        _ => return mk_query(id, qlen, default_edns, false),
+    };
+    let data = cookie_data(&ck, ip, &SECRET).unwrap_or_default();
+    mk_query_raw(&RawReq {
+        id,
+        qlen,
+        qd: 1,
+        opcode: 0,
+        qr: false,
+        opts: vec![(default_edns.unwrap_or(1232), 0, vec![(10, data)])],
+    })
+}
+
 pub fn frame(body: &[u8]) -> Vec<u8> {
     let mut v = (body.len() as u16).to_be_bytes().to_vec();
     v.extend_from_slice(body);
